@@ -152,14 +152,25 @@ def oracle(c, sp, o):
     key_ok = (sp['pv'] == g['pv'])
     uid_admin = bool(sp.get('admin')) and g['uid'] == sp['admin']
     why = []
-    if not unmodified:
+    if m.get('forged'):
+        why.append('payload not encrypted to the server\'s static public key: ' + m['forged'])
+    elif not unmodified:
         why.append('sealed payload / ephemeral value modified')
     if not in_window:
         why.append('timestamp %d not strictly within 180 s of server clock %d ns' % (g['ts'], c['now']))
-    if not key_ok:
+    if not key_ok and not m.get('forged'):
         why.append('payload sealed to another server key')
-    if accepted_auth and why:
-        return 'auth-accepts-invalid', 'AuthFirstPacket accepted a first packet although: ' + '; '.join(why)
+    # exactly one of {relayed to the redirect target, served as a Cloak session} per connection, and the bytes the
+    # peer gets are those of that outcome only
+    dials, fdials = int(o.get('dials', 0)), int(o.get('fdials', 0))
+    if max(dials, fdials) > 1:
+        return 'relayed-twice', 'the connection was handed to the redirect target %d times' % max(dials, fdials)
+    if max(dials, fdials) > 0 and max(int(o.get('srv', 0)), int(o.get('fpeerlen', 0))) > 3:
+        return 'relayed-and-answered', ('the connection was relayed to the redirect target AND the server wrote bytes of its own to the peer '
+                                        '(%s bytes reached the peer; the target replied 3)' % max(int(o.get('srv', 0)), int(o.get('fpeerlen', 0))))
+    auth_bad = ('auth-accepts-invalid', 'AuthFirstPacket accepted a first packet although: ' + '; '.join(why)) if accepted_auth and why else None
+    if auth_bad and disp not in ('admin', 'proxy'):
+        return auth_bad
     if disp == 'admin':
         w = list(why)
         if not uid_admin:
@@ -176,6 +187,8 @@ def oracle(c, sp, o):
             w.append('proxy method %r is not served' % g['method'])
         if w:
             return 'session-for-invalid', 'Cloak session granted although: ' + '; '.join(w)
+        if auth_bad:
+            return auth_bad
     else:
         # handled as ordinary web traffic: relayed untouched (or closed when the record is incomplete)
         if disp == 'web' and (o['tgtok'] != '1' or o['peerweb'] != '1'):
@@ -200,10 +213,10 @@ def build_cases(ctx, packets, specs):
     quick = ctx.quick()
     cases = []
 
-    def add(cat, name, pkt, st='S0', now=NOW, changed=None, expect_drop=False, intact_override=None):
+    def add(cat, name, pkt, st='S0', now=NOW, changed=None, expect_drop=False, intact_override=None, forged=None, kind=None):
         g = specs[name]
-        kind = g['kind']
-        sealed = SEALED[name]
+        kind = kind or g['kind']
+        sealed = SEALED.get(name, ())
         intact = True
         if changed is not None and kind == 'ws':
             # the sealed payload travels base64-coded in the `hidden` header: compare what it decodes to
@@ -231,11 +244,24 @@ def build_cases(ctx, packets, specs):
         if intact_override is not None:
             intact = intact_override
         cases.append(dict(id='c%d' % len(cases), st=st, now=now, kind=kind, pkt=pkt.hex(),
-                          meta=dict(cat=cat, base=name, spec=g, sealed_intact=intact, pristine=changed is None,
-                                    changed=sorted(changed)[:8] if changed else None, expect_drop=expect_drop)))
+                          meta=dict(cat=cat, base=name, spec=g, sealed_intact=intact, pristine=changed is None and not forged,
+                                    changed=sorted(changed)[:8] if changed else None, expect_drop=expect_drop, forged=forged)))
 
-    SEALED = {n: sealed_positions(specs[n]['kind'], p) for n, p in packets.items()}
-    oks = {(g['kind'], g['browser']): n for n, g in specs.items() if n.endswith('_ok')}
+    SEALED = {n: sealed_positions(specs[n]['kind'], p) for n, p in packets.items() if specs[n]['kind'] != 'seal'}
+    oks = {(g['kind'], g['browser']): n for n, g in specs.items() if n.endswith('_ok') and g['kind'] != 'seal'}
+    # 0. forged: small-order ephemeral values (every one, every non-canonical encoding, both transports), payload sealed
+    #    under a key the sender chose.  Not encrypted to the server's static public key => ordinary web traffic.
+    for (kind, br), name in sorted(oks.items()):
+        if quick and not (br == 'firefox' or kind == 'ws'):
+            continue
+        for sname, g in sorted(specs.items()):
+            if g['kind'] != 'seal':
+                continue
+            pkt = c9.forge_packet(kind, packets[name], bytes.fromhex(g['u']), packets[sname])
+            for st in (('S0', 'S_adminbypass') if g['plaintext'] == 'admin0' and g['keyname'] == 'zero' else ('S0',)):
+                add('forged/%s-%s/%s/key-%s/%s' % (kind, br, g['point'], g['keyname'], g['plaintext']), sname, pkt, st=st, kind=kind,
+                    forged='ephemeral value %s (%s), 64-byte block = AES-256-GCM(key %s.., nonce = first 12 bytes of it, plaintext uid %s.. sid %d method %s ts %d): '
+                           'the server\'s public key was never used' % (g['point'], g['u'], g['key'][:8], g['uid'][:8], g['sid'], g['method'], g['ts']))
     # 1. single-bit flips
     for (kind, br), name in sorted(oks.items()):
         pkt = packets[name]
@@ -279,7 +305,7 @@ def build_cases(ctx, packets, specs):
                 add('clock-subsecond', name, packets[name], now=(NOW_S + edge) * 10**9 + d)
     # 4. authorisation / configuration variants, both transports
     for name, g in sorted(specs.items()):
-        if name.endswith('_ok'):
+        if name.endswith('_ok') or g['kind'] == 'seal':
             continue
         v = name.split('_', 2)[2]
         pkt = packets[name]
@@ -438,6 +464,15 @@ def run_cases(ctx, cases, tag, x_sample=0):
         acc = [c for c in pool if parsed[c['id']]['auth'] == 'ok']
         rej = [c for c in pool if parsed[c['id']]['auth'] != 'ok']
         pick = ctx.rng.sample(acc, min(len(acc), x_sample // 2)) + ctx.rng.sample(rej, min(len(rej), x_sample - x_sample // 2))
+        # forged packets: the Gallina ladder itself must refuse every small-order ephemeral value (one case per point;
+        # quick tier: five of them incl. both order-8 points and a bit-255 form)
+        fpool = {}
+        for c in cases:
+            m = c['meta']
+            if m.get('forged') and parsed.get(c['id']) and 'auth' in parsed[c['id']] and m['spec']['keyname'] == 'zero' and m['spec']['plaintext'] == 'bypass':
+                fpool.setdefault(m['spec']['point'], c)
+        want = sorted(fpool) if not ctx.quick() else [n for n in ('zero', 'order8a', 'order8b|bit255', 'p-1', 'p+1+p') if n in fpool]
+        pick += [fpool[n] for n in want]
         for c in pick:
             o, tb, tb2 = parse_go(impl.get(c['id']))
             xl.append(model_line(dict(c, id='x' + c['id']), STATES[c['st']], tb, tb2, x25519=True))
@@ -454,12 +489,34 @@ def run_cases(ctx, cases, tag, x_sample=0):
     return rc, log, parsed, mrc, merr, model, dt, len(xl)
 
 
+# forged first packets: the sender picks the ephemeral value (a small-order point, or an encoding that would be one
+# without X25519's masking) and seals a well-formed plaintext under a key of his own choosing - he never uses the
+# server's public key.  `zero` is the key an implementation ends up with if it loses the X25519 error.
+FORGE_PLAINTEXTS = [('bypass', dict(uid=BYPASS, sid=3, method='shadowsocks')), ('admin0', dict(uid=ADMIN, sid=0, method='shadowsocks'))]
+FORGE_KEYS = [('zero', '00' * 32), ('ones', '01' * 32)]
+
+
+def forge_specs():
+    out = []
+    for pn, u in c9.FORGE_POINTS:
+        for vn, ov in FORGE_PLAINTEXTS:
+            for kn, key in FORGE_KEYS:
+                if kn != 'zero' and pn not in ('zero', 'order8a', 'p|bit255'):
+                    continue
+                g = dict(id='seal_%s_%s_%s' % (pn, vn, kn), kind='seal', point=pn, plaintext=vn, keyname=kn, key=key, nonce=u[:12].hex(),
+                         u=u.hex(), enc=1, unordered=False, ts=NOW_S, pv=None)
+                g.update(ov)
+                out.append(g)
+    return out
+
+
 def gen_packets(ctx):
     specs = gen_specs(ctx.seed)
-    rc, log, out, dt = c9.run_go(ctx, 'gen', [json.dumps(g) for g in specs], 'gen', test='TestVerifC07',
+    seals = forge_specs()
+    rc, log, out, dt = c9.run_go(ctx, 'gen', [json.dumps(g) for g in specs + seals], 'gen', test='TestVerifC07',
                                  files=('c07_test.go', 'c09_rig_test.go', 'c09_test.go'))
-    packets = {g['id']: bytes.fromhex(out[g['id']]) for g in specs if g['id'] in out}
-    return rc, log, packets, {g['id']: g for g in specs}
+    packets = {g['id']: bytes.fromhex(out[g['id']]) for g in specs + seals if g['id'] in out}
+    return rc, log, packets, {g['id']: g for g in specs + seals}
 
 
 def correspondence(ctx, verdict, pr):
@@ -485,6 +542,7 @@ def correspondence(ctx, verdict, pr):
     rc, log, parsed, mrc, merr, model, dt, nx = run_cases(ctx, cases, 'cases', x_sample=6 if ctx.quick() else 60)
     if rc != 0:
         res['broken'].append(('Go driver TestVerifC07 failed to build or run', log[-3000:]))
+        crash_attribution(ctx, verdict, cases, parsed, log)
     if mrc != 0:
         res['broken'].append(('extracted model c07 failed', str(merr)[-2000:]))
     mism, fails, cats, outcomes = [], [], [], []
@@ -536,10 +594,30 @@ def correspondence(ctx, verdict, pr):
                  for c in (cases[ncorpus], cases[len(cases) // 2], cases[-1])],
         traces_validated_against_impl=sum(1 for v in parsed.values() if v is not None),
         mismatches=len(mism), oracle_failures=len(fails), sessions_granted=nacc, gallina_x25519_recomputed=nx,
-        input_distribution=dict(category=vlib.summarize_dist([k.split('@')[0] if k.startswith('auth') else k for k in cats]),
+        input_distribution=dict(category=vlib.summarize_dist([k.split('@')[0] if k.startswith('auth') else
+                                                              ('/'.join(k.split('/')[:3]) if k.startswith('forged') else k) for k in cats]),
                                 outcome=vlib.summarize_dist(outcomes)),
         corpus_cases=ncorpus, go_seconds=round(dt, 1), exhaustive=False)
     return res
+
+
+def crash_attribution(ctx, verdict, cases, parsed, log):
+    """The driver writes one line per case and flushes: if the process died (a panic in a goroutine of the server,
+    outside every recover), the first case without a line is the input that killed it.  Confirm by running it alone."""
+    missing = [c for c in cases if parsed.get(c['id']) is None]
+    if not missing or len(missing) == len(cases):
+        return False
+    c = missing[0]
+    rc1, log1, parsed1, _, _, _, _, _ = run_cases(ctx, [c], 'crash')
+    if rc1 == 0 or parsed1.get(c['id']) is not None:
+        return False
+    tail = [ln for ln in log1.splitlines() if ln.startswith(('panic:', 'goroutine ', '\t/repo', 'github.com/cbeuw/Cloak')) or '[signal' in ln][:14]
+    m = c['meta']
+    verdict.oracle_failure('server-crash', 'C07 oracle [server-crash]: the server process died while handling this first packet (panic outside every recover): %s '
+                           '(case %s: %s on %s, state %s)' % (' | '.join(tail[:3]), c['id'], m['cat'], m['base'], c['st']),
+                           dict(case=c, state=STATES[c['st']], implementation='process died', go_log=tail,
+                                how='python3 tools/check.py C07 --replay <this file>'))
+    return True
 
 
 def replay(ctx, verdict):
@@ -557,7 +635,7 @@ def replay(ctx, verdict):
     print('model         :', model.get(c['id']))
     if o is None:
         print(log[-2000:])
-        return 2
+        return 1 if r.get('signature') == 'server-crash' and rc != 0 else 2
     msg = oracle(c, r['state'], o) if 'auth' in o else ('panic', o.get('PANIC'))
     print('oracle        :', msg)
     return 1 if msg else 0
